@@ -5,7 +5,7 @@ import ast
 
 from ..core import FuncInfo, AnalysisError, Report, call_name, dotted, unparse
 from ..ctx import Ctx
-from .util import cguards, enclosing
+from .util import cguards, enclosing, strip_not
 
 EXPLANATION = (
     "Only the second sentence of C13 is decided ('records that cannot form "
@@ -597,8 +597,12 @@ def r1311(rep: Report, ctx: Ctx) -> None:
                 if nid is None:
                     raise AnalysisError(f"{fi.qualname}: no CFG node for a "
                                         f"traversal of '{p}'")
-                guarded = any(_is_str_test(t, p) and not sense
-                              for t, sense in cfg.controlling(nid))
+                guarded = False
+                for t, sense in cfg.controlling(nid):
+                    core, pos = strip_not(t)
+                    # `not isinstance(p, str)` holding == the test failing
+                    if _is_str_test(core, p) and (sense != pos):
+                        guarded = True
                 wrapped = any(cfg.has(w) and cfg.dominates(cfg.node(w), nid)
                               and cfg.node(w) != nid for w in wraps)
                 if not (guarded or wrapped):
